@@ -80,7 +80,10 @@ def work_function(args):
                    'props': o.props, 'line': o.line, 'note': o.note, 'status': r['status'],
                    'backend': r['backend'], 'time_s': round(r['time_s'], 4),
                    'model': r.get('model'), 'trace': list(o.trace),
-                   'kf': getattr(o, 'kf', None), 'smt2': r.get('smt2')}
+                   'kf': getattr(o, 'kf', None),
+                   # the reproduction query of a known finding only decides whether its line is
+                   # printed (printed unless unsat): it gets the short in-process attempt only
+                   'smt2': None if o.kind == 'kf-repro' else r.get('smt2')}
             if r['status'] != 'unsat':
                 rec['smt_premises'] = len(o.premises)
                 rec['goal'] = str(z3.simplify(o.goal))[:600]
